@@ -56,6 +56,16 @@ SOURCES["v8"] = {"app/src/lib.rs": "use facade::Shared;\nuse beta::Extra;\n#[typ
                  "facade/src/lib.rs": "pub use alpha::Shared;\n#[typeshare]\npub struct FacadeOwn { pub f: u32 }\n"}
 
 
+# v9 = v1 plus one more type that sorts last in its output file (MC_Writer!MCExtends: v1's output is a proper prefix of v9's)
+SOURCES["v9"] = dict(SOURCES["v1"], **{"ca/src/lib.rs": SOURCES["v1"]["ca/src/lib.rs"] + "#[typeshare]\npub struct Zz { pub last: bool }\n"})
+
+
+# v10 = the items of v4 plus many small files, with OVERLAPPING directory arguments (the tree, one crate of it, one directory of
+# that crate): the files below are delivered to the collector two and three times by the parallel walk
+SOURCES["v10"] = dict(SOURCES["v4"], **{f"ca/src/m/t{i:02}.rs": f"#[typeshare]\npub struct M{i:02} {{ pub x: u32 }}\n" for i in range(30)})
+ROOTS = {"v10": ["", "ca", "ca/src/m"]}
+
+
 # (in single-file mode v8 would put two same-named definitions into one file: the arrival-order finding listed under C06)
 MULTI_ONLY = {"v8"}
 
@@ -70,12 +80,12 @@ def set_sources(root, v):
     cli.make_tree(root, SOURCES[v])
 
 
-def run_into(out, src, lang, mode, expect_fail=False):
+def run_into(out, src, lang, mode, expect_fail=False, roots=("",)):
     args = ["-l", lang] + LANG_ARGS[lang]
     args += ["-o", os.path.join(out, "out." + common.EXT[lang])] if mode == "single" else ["-d", out]
     if os.path.exists(os.path.join(src, "typeshare.toml")):
         args += ["-c", os.path.join(src, "typeshare.toml")]
-    args.append(src)
+    args += [os.path.join(src, r) if r else src for r in roots]
     os.makedirs(out, exist_ok=True)
     r = cli.run_cli(args, timeout=20)
     if r["exit"] != ("error" if expect_fail else "ok"):
@@ -89,12 +99,13 @@ def path_class(p):
 
 def run(chk):
     thorough = chk.tier == "thorough"
-    chk.rule = ("spec->impl: every history of up to " + ("4" if thorough else "3") + " runs over 5 source versions (MC_Writer) executed with the "
+    chk.rule = ("spec->impl: every history of up to " + ("4" if thorough else "3") + " runs over 10 source versions (MC_Writer; at most " + ("3" if thorough else "2") + " different versions per history; histories "
+                "starting on an empty placeholder file too) executed with the "
                 "real binary into one output location, single- and multi-file mode, " + ("6 languages" if thorough else "TypeScript and Swift") +
                 "; impl->spec: snapshot (sha256, mtime_ns) after every run, judged by Trace_Writer. distinct = (language, mode, history prefix).")
     chk.assumptions = ["mtime equality is compared in ns; runs are >= 3 ms apart", "fresh content = what the same binary writes into an empty location"]
     # model level: P holds for the model of today's code; the pre-fix helper behaviour violates Idempotent
-    for cfg, must_hold in (("fixed", True), ("bug", False), ("eager", False)):
+    for cfg, must_hold in (("fixed", True), ("bug", False), ("eager", False), ("prefix", False)):
         res = common.run_tlc("MC_Writer", cfg=f"MC_Writer_{cfg}", workers=2, timeout=300, allow_violation=True)
         chk.add_tlc(f"MC_Writer[{cfg}]", res)
         chk.extra.setdefault("model_results", {})[cfg] = res.violation or "Idempotent and Fresh hold for every history"
@@ -125,7 +136,7 @@ def run(chk):
                 continue
             set_sources(src, v)
             try:
-                ref = run_into(os.path.join(base, f"ref_{v}"), src, lang, mode, v in FAILS)
+                ref = run_into(os.path.join(base, f"ref_{v}"), src, lang, mode, v in FAILS, ROOTS.get(v, ("",)))
             except Refused as e:
                 refusals.append((lang, mode, [v], str(e)))
                 continue
@@ -144,10 +155,17 @@ def run(chk):
             events.append({"ev": "reset"})
             meta.append(None)
             for k, v in enumerate(h):
+                if v == "touch":
+                    # Writer!Touch: an empty placeholder at the output path (single-file mode) / at the first crate's file
+                    os.makedirs(out, exist_ok=True)
+                    open(os.path.join(out, ("out." if mode == "single" else "ca.") + common.EXT[lang]), "w").close()
+                    events.append({"ev": "touch", "files": {p: {"sha": s_, "mtime": str(m_)} for p, (s_, m_) in cli.snapshot(out).items()}})
+                    meta.append(None)
+                    continue
                 set_sources(src, v)
                 time.sleep(0.003)
                 try:
-                    snap = run_into(out, src, lang, mode, v in FAILS)
+                    snap = run_into(out, src, lang, mode, v in FAILS, ROOTS.get(v, ("",)))
                 except Refused as e:
                     refusals.append((lang, mode, list(h[:k + 1]), str(e)))
                     break
@@ -175,14 +193,14 @@ def run(chk):
         refs = {e["v"]: e["files"] for e in events if e["ev"] == "ref"}
         for b in tres.bad:
             e, m = events[b - 1], meta[b - 1]
-            prev = events[b - 2] if events[b - 2]["ev"] == "run" else None
+            prev = events[b - 2] if events[b - 2]["ev"] in ("run", "touch") else None
             kinds = []
             if e.get("failed"):
                 before = prev["files"] if prev else {}
                 for p in set(before) | set(e["files"]):
                     if before.get(p) != e["files"].get(p):
                         kinds.append(("touched-by-failing-run", path_class(p)))
-            elif prev and prev["v"] == e["v"]:
+            elif prev and prev.get("v") == e["v"]:
                 for p in set(prev["files"]) | set(e["files"]):
                     a, c = prev["files"].get(p), e["files"].get(p)
                     if a != c:
